@@ -25,6 +25,7 @@ from ..monitor import Patch, call_real, reach
 
 ID = 'C09'
 LEVEL = 'exploration'
+DEBUG_TOGGLE = True  # runner flips the library debug flag every 97 monitored executions
 TECHNIQUE = 'runtime monitoring: conservation multiset + full reference model of pick-and-drop at the transition-function hook; offline inventory checker over recorded histories of key-door and obstacle environments'
 LEVEL_TEXT = ('Every observed call of every built-in transition function must preserve the multiset {non-floor grid objects} + '
               '{held item} (door status excluded; a faced ACTUATE on a box replaces it by its content), may change only '
@@ -191,6 +192,8 @@ def goal_histories(ctx, sink, seeds, steps):
 
 
 def run(ctx):
+    from .. import custom_objects
+    custom_objects.enable(cleats=True)  # user-defined object types join the generators' pool (flags, not types, must decide)
     sink = dynmon.Sink(ctx, ASPECTS)
     sink.on_call = count_events(ctx)
     with Patch() as patch, reach(ctx, [transition_fs.pickndrop, transition_fs.move_obstacles, transition_fs.actuate_box]):
@@ -207,6 +210,8 @@ def run(ctx):
 
 
 def replay(ctx, kind, payload):
+    from .. import custom_objects
+    custom_objects.enable(cleats=True)
     if kind == 'fn_case':
         dynmon.replay_call(ctx, payload, ASPECTS)
     elif kind == 'history':
